@@ -111,6 +111,12 @@ def run(F, tier, res):
     res.rule('C04.DECLINE-MUT', n_decl, 1000, 'handler exits Ok(false) (mode N); none may have written line/raw_line')
     # ingest fn: by signature
     ing = [p for p, b in F.fn_bodies.items() if b['mir']['arg_count'] == 2 and 'StateMachine' in b['mir']['locals'][1] and '[u8]' in b['mir']['locals'][2]]
+    # several functions may have that signature after an extract-method refactoring: the entry is the one consume calls
+    if len(ing) > 1:
+        cons = [q for q in F.fn_bodies if q.endswith('::consume') and 'StateMachine' in q]
+        called = {callee_of(c) for q in cons for _, c in F.calls(q)} | {(c.get('resolved') or '') for q in cons for _, c in F.calls(q)}
+        prim = [q for q in ing if q in called]
+        ing = prim if len(prim) == 1 else ing
     ingest_rule(F, res, ing[0] if len(ing) == 1 else None)
     E.evidence(res, R)
     return res
